@@ -30,21 +30,34 @@ let run_sacn wire ip univ steps =
         let w = { w_cid = nn cid; w_rev2 = (rev2 <> "0"); w_fvec = nn fvec; w_prio = nn prio; w_seq = nn seq;
                   w_opts = nn opts; w_univ = nn u; w_dvec = nn dvec; w_dmph = nn dmph;
                   w_pdu = bytes_of_hex pdu } in
-        Some (dt, Some w, pkt_of_wire w)
+        Some (dt, Some (w, None), pkt_of_wire w)
+      | true, [dt; cid; _; fvec; prio; seq; opts; u; dvec; dmph; pdu; pre; rvec] ->
+        let rv = nn rvec in
+        let w = { w_cid = nn cid; w_rev2 = (rv = vECTOR_ROOT_E131_REV2); w_fvec = nn fvec; w_prio = nn prio;
+                  w_seq = nn seq; w_opts = nn opts; w_univ = nn u; w_dvec = nn dvec; w_dmph = nn dmph;
+                  w_pdu = bytes_of_hex pdu } in
+        Some (dt, Some (w, Some { d_pre_ok = (pre = "1"); d_rvec = rv; d_wire = w }), pkt_of_wire w)
       | _ -> None in
     match parsed with
     | Some (dt, wopt, p) ->
       now := !now + ios dt;
       let before = List.length !st.u_srcs in
       (* a framing PDU that is not a data PDU is no packet for the text either *)
-      let is_data = (match wopt with Some w -> w.w_fvec = vECTOR_E131_DATA | None -> true) in
+      let is_data = (match wopt with
+                     | Some (w, dg) ->
+                       w.w_fvec = vECTOR_E131_DATA &&
+                       (match dg with
+                        | Some g -> g.d_pre_ok && (g.d_rvec = vECTOR_ROOT_E131 || g.d_rvec = vECTOR_ROOT_E131_REV2)
+                        | None -> true)
+                     | None -> true) in
       let kk = { k_st = !st; k_T = !tT; k_D = !tD; k_frozen = !frozen } in
       (* G_cap is evaluated on the text state before the packet *)
       if is_data && not (gcap c (n_of_int !now) !tT !tD p) then cap := true;
       let (((k', oc), vN), d4) = cstep c (n_of_int !now) kk is_data p in
       let st' = k'.k_st and t' = k'.k_T and d' = k'.k_D in
       (match wopt with
-       | Some w -> if handle_wire c (n_of_int !now) !st w <> (st', oc) then failwith "cstep/handle_wire"
+       | Some (w, None) -> if handle_wire c (n_of_int !now) !st w <> (st', oc) then failwith "cstep/handle_wire"
+       | Some (_, Some g) -> if handle_dgram c (n_of_int !now) !st g <> (st', oc) then failwith "cstep/handle_dgram"
        | None -> ());
       st := st';
       let after = List.length st'.u_srcs in
